@@ -89,7 +89,7 @@ class ellipse_to_mask:
     }
 
 
-@contract(RECTANGLE + '.to_mask', props=['C02', 'C13'])
+@contract(RECTANGLE + '.to_mask', props=['C02', 'C03', 'C13'])
 class rectangle_to_mask:
     cases = MODES_NOEXACT_U
 
@@ -106,7 +106,7 @@ class rectangle_to_mask:
     }
 
 
-@contract(POLYGON + '.to_mask', props=['C02', 'C13'])
+@contract(POLYGON + '.to_mask', props=['C02', 'C03', 'C13'])
 class polygon_to_mask:
     cases = {'center': {'mode': 'center'}, 'subpixels': {'mode': 'subpixels'}}
 
